@@ -180,21 +180,31 @@ def check_cf_interpolate(ctx):
 
 
 def lookup_by_regions(ctx, rule, inst, where_, fi, mk, attr, tab, cap):
+    """ConvolvedFluxes.interpolate on tables of two and three apertures (see regions_verdict)"""
+    au = sym('unit:au')
+
+    def run_(I):
+        out = I.call(fi, [symarr('q', (D,), unit=au)], selfv=mk())
+        return out.attrs.get(attr) if isinstance(out, Obj) else None
+    return regions_verdict(ctx, rule, inst, where_, run_, sym('q', D), cap, tab, (M, D))
+
+
+def regions_verdict(ctx, rule, inst, where_, run_, q, knots_p, tab, dims, hooks=None):
     """the interpolation decided on tables of two and three increasing apertures: on every knot, strictly between neighbours and above the last knot the
     value is compared with the definition (knots.py); True when every region of every table size was decided (the verdicts are then recorded)"""
     from .. import knots
-    au = sym('unit:au')
-    q = sym('q', D)
     verdicts = []
     for n in (2, 3):
-        I = Interp(ctx.repo, H())
+        I = Interp(ctx.repo, (hooks or H)())
         I.axis_len[A] = n
         I.exact_le = True          # a request may lie exactly on a tabulated aperture: <= and < are kept apart
-        out = I.call(fi, [symarr('q', (D,), unit=au)], selfv=mk())
-        v = out.attrs.get(attr) if isinstance(out, Obj) else None
-        if not isinstance(v, Arr) or v.mask is not None or tuple(v.dims) != (M, D) or I.lost or [f for f in I.findings if f.kind == 'label-clash']:
+        try:
+            v = run_(I)
+        except Exception:
             return False
-        rs = knots.decide_lookup(v.poly, q, cap, tab, A, n, qlabel=D)
+        if not isinstance(v, Arr) or v.mask is not None or tuple(v.dims) != tuple(dims) or I.lost or [f for f in I.findings if f.kind == 'label-clash']:
+            return False
+        rs = knots.decide_lookup(v.poly, q, knots_p, tab, A, n, qlabel=D)
         if any(r[1] is None for r in rs):
             return False
         verdicts.append((n, rs))
@@ -231,8 +241,13 @@ def check_sed_interpolate(ctx):
         capn = cap / au
         mxn = mk_fn('max', B(A, capn))
         ref = mk_fn('lininterp', P(clamp_ref(qn, mxn)), B(A, capn), B(A, sym('flux', A, N) / mJy))
-        compare(ctx, 'CFG-7', 'SED.interpolate, request given as %s' % tag, loc(fs), out, ref, (N, D), vocab=VOCAB, fns=FNS, findings=[f for f in I.findings if f.kind == 'label-clash'],
+        from ..roundtrip import TrialCtx
+        t = TrialCtx(ctx)
+        compare(t, 'CFG-7', 'SED.interpolate, request given as %s' % tag, loc(fs), out, ref, (N, D), vocab=VOCAB, fns=FNS, findings=[f for f in I.findings if f.kind == 'label-clash'],
                 detail_ok='linear interpolant at min(request, maximum) with abscissa and query both in AU')
+        if not (t.n_undecided and not t.n_violations and regions_verdict(ctx, 'CFG-7', 'SED.interpolate, request given as %s' % tag, loc(fs),
+                                                                         lambda I_, qunit=qunit: I_.call(fs, [symarr('q', (D,), unit=qunit)], selfv=mks()), qn, capn, sym('flux', A, N) / mJy, (N, D))):
+            t.commit()
         unit_findings(ctx, I, fs, 'SED.interpolate comparisons, request given as %s' % tag)
         roundtrip_findings(ctx, h, fs, 'SED.interpolate clamp bound and look-up in one unit (%s)' % tag)
         okg, seen = refuses_below(I, [qn, clamp_ref(qn, mxn), qn * au, clamp_ref(qn, mxn) * au], [capn, cap], A, D)
@@ -491,6 +506,7 @@ def variable_details(ctx, pre=None):
 CF = 'sedfitter/convolved_fluxes/convolved_fluxes.py'
 SE = 'sedfitter/sed/sed.py'
 MUST_FIRE = [
+    ('SED look-up by searchsorted(side=right): a request on the largest aperture indexes past the table', [(SE, '        # Create interpolating function\n        flux_interp = interp1d(sed_apertures, self.flux.swapaxes(0, 1))\n\n        # If any apertures are larger than the defined max, reset to max\n        apertures[apertures > sed_apertures.max()] = sed_apertures.max()\n\n        # If any apertures are smaller than the defined min, raise Exception\n        if np.any(apertures < sed_apertures.min()):\n            raise Exception("Aperture(s) requested too small")\n\n        return flux_interp(apertures)\n', '        # If any apertures are larger than the defined max, reset to max\n        apertures[apertures > sed_apertures.max()] = sed_apertures.max()\n\n        # If any apertures are smaller than the defined min, raise Exception\n        if np.any(apertures < sed_apertures.min()):\n            raise Exception("Aperture(s) requested too small")\n\n        # segment of the table each request falls in, then the chord of that segment\n        values = self.flux.value\n        upper = np.searchsorted(sed_apertures, apertures, side=\'right\')\n        lower = upper - 1\n        frac = (apertures - sed_apertures[lower]) / (sed_apertures[upper] - sed_apertures[lower])\n        return (values[lower, :] + (values[upper, :] - values[lower, :]) * frac[:, np.newaxis]).transpose()\n')]),
     ('look-up written as a loop over half-open aperture intervals: a request on the largest aperture falls in none', [(CF, '            flux_interp = interp1d(self.apertures, self.flux)\n            c.flux = flux_interp(new_apertures) * self.flux.unit\n\n            # The following is not strictly correct - errors from interpolation is not interpolation of errors\n            error_interp = interp1d(self.apertures, self.error)\n            c.error = error_interp(new_apertures) * self.error.unit\n', '            ap_old = self.apertures.value\n            ap_new = new_apertures.value\n            tables = []\n            for values in (self.flux.value, self.error.value):\n                result = np.zeros((values.shape[0], len(ap_new)))\n                for ia in range(len(ap_old) - 1):\n                    calc = (ap_new >= ap_old[ia]) & (ap_new < ap_old[ia + 1])\n                    frac = (ap_new[calc] - ap_old[ia]) / (ap_old[ia + 1] - ap_old[ia])\n                    result[:, calc] = values[:, ia, np.newaxis] + (values[:, ia + 1] - values[:, ia])[:, np.newaxis] * frac[np.newaxis, :]\n                tables.append(result)\n            c.flux = tables[0] * self.flux.unit\n            c.error = tables[1] * self.error.unit\n')]),
     ('single-aperture SED tiled instead of repeated', [(SE, "return np.repeat(self.flux[0, :], len(apertures)).reshape(self.n_wav, len(apertures))", "return np.tile(self.flux[0, :], len(apertures)).reshape(self.n_wav, len(apertures))")]),
     ('aperture curve through np.interp without sorting the filters', [(SE, "        # Find wavelength order\n        order = np.argsort(wavelengths)\n\n        # Interpolate apertures vs wavelength\n        log10_ap_interp = interp1d(np.log10(wavelengths[order]), np.log10(apertures[order]), bounds_error=False, fill_value=np.nan)\n", ""), (SE, "        # Interpolate the apertures\n        apertures = 10. ** log10_ap_interp(np.log10(sed_wav))\n\n        # Extrapolate on either side\n        apertures[np.log10(sed_wav) < log10_ap_interp.x[0]] = 10. ** log10_ap_interp.y[0]\n        apertures[np.log10(sed_wav) > log10_ap_interp.x[-1]] = 10. ** log10_ap_interp.y[-1]\n", "        apertures = 10. ** np.interp(np.log10(sed_wav), np.log10(wavelengths), np.log10(apertures))\n")]),
@@ -525,6 +541,7 @@ MUST_FIRE = [
                                                "        if np.any(apertures < sed_apertures.min()):\n            raise Exception(\"Aperture(s) requested too small\")\n\n        result = flux_interp(apertures)\n        apertures[apertures > sed_apertures.max()] = sed_apertures.max()\n        return result")]),
 ]
 MUST_SILENT = [
+    ('SED look-up by searchsorted, the first aperture taken with the first segment', [(SE, '        # Create interpolating function\n        flux_interp = interp1d(sed_apertures, self.flux.swapaxes(0, 1))\n\n        # If any apertures are larger than the defined max, reset to max\n        apertures[apertures > sed_apertures.max()] = sed_apertures.max()\n\n        # If any apertures are smaller than the defined min, raise Exception\n        if np.any(apertures < sed_apertures.min()):\n            raise Exception("Aperture(s) requested too small")\n\n        return flux_interp(apertures)\n', '        # If any apertures are larger than the defined max, reset to max\n        apertures[apertures > sed_apertures.max()] = sed_apertures.max()\n\n        # If any apertures are smaller than the defined min, raise Exception\n        if np.any(apertures < sed_apertures.min()):\n            raise Exception("Aperture(s) requested too small")\n\n        # segment of the table each request falls in, then the chord of that segment\n        values = self.flux.value\n        upper = np.searchsorted(sed_apertures, apertures)\n        upper = np.maximum(upper, 1)\n        lower = upper - 1\n        frac = (apertures - sed_apertures[lower]) / (sed_apertures[upper] - sed_apertures[lower])\n        return (values[lower, :] + (values[upper, :] - values[lower, :]) * frac[:, np.newaxis]).transpose()\n')]),
     ('look-up written as a loop over half-open aperture intervals, the largest aperture set on its own', [(CF, '            flux_interp = interp1d(self.apertures, self.flux)\n            c.flux = flux_interp(new_apertures) * self.flux.unit\n\n            # The following is not strictly correct - errors from interpolation is not interpolation of errors\n            error_interp = interp1d(self.apertures, self.error)\n            c.error = error_interp(new_apertures) * self.error.unit\n', '            ap_old = self.apertures.value\n            ap_new = new_apertures.value\n            tables = []\n            for values in (self.flux.value, self.error.value):\n                result = np.zeros((values.shape[0], len(ap_new)))\n                for ia in range(len(ap_old) - 1):\n                    calc = (ap_new >= ap_old[ia]) & (ap_new < ap_old[ia + 1])\n                    frac = (ap_new[calc] - ap_old[ia]) / (ap_old[ia + 1] - ap_old[ia])\n                    result[:, calc] = values[:, ia, np.newaxis] + (values[:, ia + 1] - values[:, ia])[:, np.newaxis] * frac[np.newaxis, :]\n                result[:, ap_new == ap_old[-1]] = values[:, -1, np.newaxis]\n                tables.append(result)\n            c.flux = tables[0] * self.flux.unit\n            c.error = tables[1] * self.error.unit\n')]),
     ('single-aperture SED repeated along a new axis', [(SE, "return np.repeat(self.flux[0, :], len(apertures)).reshape(self.n_wav, len(apertures))", "return np.repeat(self.flux[0, :, np.newaxis], len(apertures), axis=1)")]),
     ('aperture curve through np.interp on the sorted filters', [(SE, "        # Find wavelength order\n        order = np.argsort(wavelengths)\n\n        # Interpolate apertures vs wavelength\n        log10_ap_interp = interp1d(np.log10(wavelengths[order]), np.log10(apertures[order]), bounds_error=False, fill_value=np.nan)\n", "        order = np.argsort(wavelengths)\n"), (SE, "        # Interpolate the apertures\n        apertures = 10. ** log10_ap_interp(np.log10(sed_wav))\n\n        # Extrapolate on either side\n        apertures[np.log10(sed_wav) < log10_ap_interp.x[0]] = 10. ** log10_ap_interp.y[0]\n        apertures[np.log10(sed_wav) > log10_ap_interp.x[-1]] = 10. ** log10_ap_interp.y[-1]\n", "        apertures = 10. ** np.interp(np.log10(sed_wav), np.log10(wavelengths[order]), np.log10(apertures[order]))\n")]),
